@@ -21,7 +21,7 @@ def clip(s, n):
 def seeded():
     rows = ["| id | change (summary by its author) | needs | first run | now reported by `./check.py <P> --tier quick` as |", "|---|---|---|---|---|"]
     def key(d): p, k = os.path.basename(d).split("-"); return (p, int(k))
-    for d in sorted(glob.glob(f"{V}/seeded/C*-*"), key=key):
+    for d in sorted((x for x in glob.glob(f"{V}/seeded/C*-*") if os.path.basename(x).split("-")[1].isdigit()), key=key):
         try: m = json.load(open(d + "/meta.json"))
         except Exception: continue
         v = m.get("verification", {})
@@ -33,9 +33,23 @@ def seeded():
         rows.append(f"| {os.path.basename(d)} | {clip(m.get('summary', ''), 230)} | {clip(m.get('needs', ''), 200)} | {'detected' if first else 'missed'} | {how} |")
     return "\n".join(rows)
 
+def harmless():
+    rows = ["| id | edit (summary by its author) | checks run | first run | now |", "|---|---|---|---|---|"]
+    for d in sorted(glob.glob(f"{V}/seeded/C*-h*")):
+        try: m = json.load(open(d + "/meta.json"))
+        except Exception: continue
+        v = m.get("verification", {})
+        first = v.get("first_run_silent", v.get("silent"))
+        alarms = [f"{p}: {clip(((r.get('first_replay') or {}).get('broken') or (r.get('first_replay') or {}).get('correspondence') or (r.get('first_replay') or {}).get('why') or 'violation'), 80)}"
+                  for p, r in v.get("checks", {}).items() if r.get("exit") != 0 or r.get("violations")]
+        first_alarms = v.get("first_run_alarms") or ([] if first else alarms)
+        rows.append(f"| {os.path.basename(d)} | {clip(m.get('summary', ''), 260)} | {' '.join(sorted(v.get('checks', {})))} | "
+                    f"{'silent' if first else 'alarm: ' + clip('; '.join(first_alarms), 160)} | {'silent' if v.get('silent') else 'alarm: ' + clip('; '.join(alarms), 160)} |")
+    return "\n".join(rows)
+
 def main():
     p = f"{V}/DESIGN.md"; s = open(p).read()
-    for name, fn in (("obligations", obligations), ("seeded", seeded)):
+    for name, fn in (("obligations", obligations), ("seeded", seeded), ("harmless", harmless)):
         pat = re.compile(rf"(<!-- BEGIN {name} -->\n).*?(\n<!-- END {name} -->)", re.S)
         assert pat.search(s), name
         s = pat.sub(lambda m: m.group(1) + fn() + m.group(2), s)
